@@ -36,6 +36,14 @@ PRECEDENCE = {
 }
 
 
+# Word operators: a field with one of these names is only an identifier as long
+# as it is not surrounded by whitespace.
+WORD_OPERATORS = frozenset(
+    ("add", "sub", "mul", "div", "mod", "eq", "ne", "lt", "le", "gt", "ge", "in")
+    + ("and", "or", "not")
+)
+
+
 class AstToODataVisitor(visitor.NodeVisitor):
     """
     :class:`NodeVisitor` that transforms an :term:`AST` back into an OData
@@ -236,6 +244,15 @@ class AstToODataVisitor(visitor.NodeVisitor):
         :meta private:
         """
         res = self.visit(node)
+
+        if (
+            isinstance(node, ast.Identifier)
+            and not node.namespace
+            and node.name.lower() in WORD_OPERATORS
+        ):
+            # `(not) eq x`, `- (eq) add 1`: written bare, an operand that is a field
+            # named like an operator would be read as that operator.
+            return f"({res})"
 
         if hasattr(node, "op"):
             node_op = type(node.op)  # type: ignore
